@@ -346,6 +346,10 @@ pub fn emit_unit(db: &Db, contracts: &serde_json::Value, unit: &str) -> UnitOut 
     let cands: Vec<&Func> = db.funcs.iter().filter(|f| f.ty == unit).collect();
     let mut todo: Vec<&Func> = vec![];
     for f in cands {
+        if db.nested.contains_key(unit) && !f.prefix.is_empty() {
+            skipped.push(json!({"id": f.id(), "line": f.line, "reason": "field / comparison traits are not part of the nested units"}));
+            continue;
+        }
         match allowed(f, contracts) {
             Ok(()) => todo.push(f),
             Err(why) => skipped.push(json!({"id": f.id(), "line": f.line, "reason": why})),
@@ -486,6 +490,13 @@ pub fn emit_unit(db: &Db, contracts: &serde_json::Value, unit: &str) -> UnitOut 
             };
             format!("proof {{ {h} }} ")
         }).unwrap_or_default();
+        let hint = if let (Some((_, inner)), Some(h)) = (db.nested.get(unit), contracts["nested_hints"][f.name.as_str()].as_str()) {
+            let depth = inner.matches("__").count() + 1;
+            let x = format!("self{}@", ".re".repeat(depth + 1));
+            format!("{hint}proof {{ {} }} ", h.replace("{x}", &x))
+        } else {
+            hint
+        };
         if mut_self_by_value {
             body = format!("{{ {hint}let mut self_ = self; {} }}", &body[1..body.len() - 1]);
         } else if !hint.is_empty() {
@@ -562,7 +573,9 @@ pub fn emit_unit(db: &Db, contracts: &serde_json::Value, unit: &str) -> UnitOut 
                 // the domain is a condition on the innermost real part
                 let depth = inner.matches("__").count() + 1;
                 let inner_re = format!("{}@", ".re".repeat(depth + 1));
-                reqs = reqs.iter().map(|r| r.replace(".re@", &inner_re)).collect();
+                // integer exponent range: every nesting level passes exp - 3 to the level below
+                let bound = (1073741888i64 - 8 * depth as i64).to_string();
+                reqs = reqs.iter().map(|r| r.replace(".re@", &inner_re).replace("1073741888", &bound)).collect();
             }
             for p in &ps {
                 if let Kind::Struct(t) = &p.kind {
